@@ -2,6 +2,8 @@ import PyaModel.Core.AnnVisit
 import PyaModel.Core.Render
 import PyaModel.Core.Measure
 import PyaModel.Generated.TotalTables
+import PyaModel.Core.Tfr
+import PyaModel.Generated.TfrRoutes
 /-!
 # Spec/Total — what C12 demands, as executable predicates, and the exception classes
 
@@ -24,6 +26,9 @@ def liveSup (k : String) : Bool := Gen.visitorMethods.contains k
 def pinnedSup (k : String) : Bool :=
   ["Attribute", "BinOp", "Call", "Constant", "Dict", "Expr", "List", "Name", "Set", "Subscript", "Tuple",
    "UnaryOp"].contains k
+
+/-- does the live ForwardRef branch re-enter the evaluator on a route outside `add_evaluation`? -/
+def liveUnguarded : Bool := Gen.forwardRefRoutes.any fun r => r.2.1 && !r.2.2
 
 def Reg.has (reg : Reg) (c : String) : Bool := reg.any (·.1 == c)
 
